@@ -48,7 +48,9 @@ def judge_a(case: Dict[str, Any], ap: Dict[str, Any], af: Dict[str, Any]) -> Dic
     for side, a in (("pydantic", ap), ("fallback", af)):
         if a.get("ok") and "dump_exc" in a:
             return {"status": "dump-raised", "deferred": [],
-                    "violations": [({"class": "dump-raised", "model": model, "backend": side},
+                    "violations": [({"class": "dump-raised", "model": model, "backend": side,
+                                     **({"member": "unknown:" + str(case.get("label"))[len("unknown:"):].split("=", 1)[0]}
+                                        if str(case.get("label") or "").startswith("unknown:") else {})},
                                     f"{model} <- {wire_txt}: model_dump raised under {side}: {a['dump_exc']}")]}
     P = ap.get("lossless", [])
     F = af.get("lossless", []) if af["ok"] else None
